@@ -188,6 +188,22 @@ class LinHooks:
             if isinstance(op, ast.Sub) and isinstance(l, E.Num) and not eng.in_spec() and self.tables_are_factors:
                 return eng.abort(st)          # number - table: Factor has no __rsub__ (TypeError)
             return combine(lin(l), lin(r), 1 if isinstance(op, ast.Add) else -1)
+        if isinstance(op, ast.MatMult) and isinstance(l, E.Bound):
+            l = eng.bound_as_value(st, l)                      # Q.T : an attribute value
+        if isinstance(op, ast.MatMult) and lin(r) is not None and not isinstance(r, E.Num):
+            if isinstance(l, LinV):
+                # inner product of two tables / vectors: bilinear, symmetric
+                ip = eng.uf('inner', V, V, R)
+                tot = z3.RealVal(0)
+                for ta, ca in l.terms.values():
+                    for tb, cb in lin(r).terms.values():
+                        a_, b_ = (ta, tb) if str(ta) <= str(tb) else (tb, ta)
+                        tot = tot + ca * cb * ip(a_, b_)
+                return E.Num(tot, npy=True, taint=E.t_or(l.taint, r.taint))
+            if isinstance(l, E.Obj) and l.cls not in ('dict', 'list', 'set', 'str', 'tuple'):
+                # matrix (operator) applied to a vector: linear in the vector
+                mm = eng.uf('matvec', V, V, V)
+                return LinV({mm(l.t, t).get_id(): (mm(l.t, t), c) for t, c in lin(r).terms.values()}, E.t_or(l.taint, r.taint))
         if isinstance(op, ast.Mult):
             if isinstance(l, E.Num) and vec(r):
                 return scale(lin(r), l.real())
